@@ -222,6 +222,32 @@ def _layer_resolve(ck: Check):
                         ck.violation(clause, f'registry template {reg_tpl!r}, script template {st!r}: {info}',
                                      case=dict(kind='resolve', registry=reg_tpl, script=st), replay=REPLAY, wclass=w)
 
+    # (c) wide and deep: many references in ONE call (state kept across references: memo tables, depth counters), long chains, wide nodes
+    deep = 40 if thorough else 24
+    ck.bound('resolve.wide_and_deep', f'chains of depth 3/17/{deep}, 2..300 references to the same constants in one script, primitives with 8 arguments')
+    chain = [{'int': '0'}] + [{'prim': 'Pair', 'args': [{'$ref': i}, {'int': str(i + 1)}]} for i in range(deep)]
+    values, hashes = E.build_registry(chain)
+    ctx = _register_all(values)
+    reg = dict(zip(hashes, values))
+    wide = []
+    for k in (2, 3, 16, 17, 18, 33, 40, 300):
+        wide.append((f'{k} references to two constants', [{'$ref': i % 2} for i in range(k)]))
+        wide.append((f'{k} references to one constant below a primitive', [{'prim': 'PUSH', 'args': [{'prim': 'int'}, {'$ref': 1}]} for _ in range(k)]))
+    for d in (3, 16, 17, 18, deep):
+        wide.append((f'chain of depth {d}', {'prim': 'Some', 'args': [{'$ref': d}]}))
+        wide.append((f'chain of depth {d} twice, then an unknown hash', [{'$ref': d}, {'$ref': d}, {'$unknown': 1}]))
+    wide.append(('primitive with 8 arguments', {'prim': 'Pair', 'args': [{'$ref': i % 3} for i in range(8)], 'annots': ['%w']}))
+    wide.append(('nested sequences 6 deep', [[[[[[{'$ref': 2}]]]]], {'$ref': 2}]))
+    for label, st in wide:
+        r = _check_resolve_in(ctx, reg, hashes, chain, st)
+        ck.evaluate(f'resolve wide/deep: {label.split(" ")[0] if label[0].isdigit() else label}')
+        if r:
+            clause, info, w = r
+            if budget.get((clause, 'wide'), 0) < 2:
+                budget[(clause, 'wide')] = budget.get((clause, 'wide'), 0) + 1
+                ck.violation(clause, f'[{label}] chain registry of depth {deep}: {info[:400]}',
+                             case=dict(kind='resolve', registry=chain, script=st), replay=REPLAY, wclass=f'wide/deep {label}')
+
 
 class _StubShell:
     """Stands for the shell RPC: shell.contracts[address].script() / shell.head.context... (never reaches HTTP)."""
